@@ -1,5 +1,5 @@
 //! C15 — every request gets an answer and invalid input is refused without effect.
-//! Per-RPC boundary-value cross products, singly and in streams of length <= 3 (thorough 4), on a persistent
+//! Per-RPC boundary-value cross products, singly and in streams of length <= 3 (thorough 5), on a persistent
 //! server; every request additionally goes through the tower stack (panic containment layer +
 //! generated server) as raw gRPC frames, together with malformed frames.
 
@@ -491,7 +491,7 @@ pub fn worker(wi: usize, wn: usize, tier: &str) {
             check_malformed_delete(&rt, &scratch.path.join("mf"), name, flt, metric, &mut st);
         }
         // --- streams of length <= 3 (BulkInsert and BulkLoadHnsw)
-        let maxlen = if tier == "thorough" { 4usize } else { 3 };
+        let maxlen = if tier == "thorough" { 5usize } else { 3 };
         let mut seqs: Vec<Vec<usize>> = Vec::new();
         for l in 1..=maxlen {
             seqs.extend(vcore::exec::sequences(sitems.len(), l, &[]));
